@@ -120,7 +120,7 @@ func drawDelivery(tp *Tape, rs *ReaderSpec) {
 func drawHandlers(tp *Tape, max int) []HandlerSpec {
 	n := tp.Int(0, max, "nhandlers")
 	names := []string{"c0", "shake", "iffy", "c3", "settle"}
-	kinds := []string{"int", "float64", "string", "bool", "int8", "float32", "int64"}
+	kinds := []string{"int", "float64", "string", "bool", "int8", "float32", "int64", "MyInt", "MyString", "MyBool", "MyFloat"}
 	var hs []HandlerSpec
 	for i := 0; i < n; i++ {
 		h := HandlerSpec{Name: names[i], Shape: handlerShapes[tp.Int(0, len(handlerShapes)-1, "shape")]}
